@@ -20,7 +20,7 @@ Definition w_attr (s : store) (a : addr) (k : str) : list wtok :=
 Definition w_kind (k : ekind) : wtok :=
   WN (match k with KFile => 100 | KBlock => 101 | KGroup => 102 | KDataArray => 103 | KTag => 104
               | KMultiTag => 105 | KFeature => 106 | KSource => 107 | KSection => 108
-              | KProperty => 109 end).
+              | KProperty => 109 | KDataFrame => 110 end).
 
 (* The walk reads the store only through these five leaf observations; two stores on which
    they agree have the same walk (Proofs/WalkProofs.v). *)
@@ -79,7 +79,9 @@ Section Walk.
     ++ v_link_req v a s_data ++ w_times a ++ [m_close].
   Definition w_group (a : addr) : list wtok :=
     w_header KGroup a ++ v_link v a s_metadata ++ w_linklist a s_data_arrays ++ w_linklist a s_tags
-    ++ w_linklist a s_multi_tags ++ w_linklist a s_sources ++ [m_close].
+    ++ w_linklist a s_multi_tags ++ w_linklist a s_sources ++ w_linklist a s_data_frames ++ [m_close].
+  Definition w_data_frame (a : addr) : list wtok :=
+    w_header KDataFrame a ++ v_payload v a s_data ++ v_link v a s_metadata ++ [m_close].
   Definition w_data_array (a : addr) : list wtok :=
     w_header KDataArray a ++ v_attr v a s_label ++ v_attr v a s_unit ++ v_payload v a s_data
     ++ v_link v a s_metadata ++ w_linklist a s_sources ++ [m_close].
@@ -109,7 +111,8 @@ Section Walk.
   Definition w_block (a : addr) : list wtok :=
     w_header KBlock a ++ v_link v a s_metadata ++ w_children a s_groups w_group
     ++ w_children a s_data_arrays w_data_array ++ w_children a s_tags w_tag
-    ++ w_children a s_multi_tags w_multi_tag ++ w_children a s_sources (w_source walk_fuel) ++ [m_close].
+    ++ w_children a s_multi_tags w_multi_tag ++ w_children a s_sources (w_source walk_fuel)
+    ++ w_children a s_data_frames w_data_frame ++ [m_close].
   Definition walk_v : list wtok :=
     [m_open; w_kind KFile] ++ w_children 0%nat s_data w_block
     ++ w_children 0%nat s_metadata (w_section walk_fuel) ++ [m_close].
